@@ -57,6 +57,8 @@ def call_cases(labels, cases, name='calls'):
                     return z3.Implies(w, goal)
                 if conj:
                     out.append((tag + '.call%d.loop' % j, wrapg(z3.And(*conj))))
+                if opts.get('recv'):
+                    out.append((tag + '.call%d.recv' % j, wrapg(as_bool(P.eng.identical(ev.recv, P.value(opts['recv'], **bind))))))
                 for ai, text in enumerate(exp[1]):
                     if text is None:
                         continue
